@@ -195,7 +195,7 @@ class Exec(SpecMixin, ExprMixin, CallMixin, BuiltinMixin, StmtMixin, EventMixin)
       if isinstance(v, VRef) and ty.kind in ('set', 'dict', 'list', 'obj', 'vtuple'):
         st.assume(st.heap.alloc(v.t))
     for gname, gty in c.ghost.items():
-      if gname == 'params':
+      if gname in ('params', 'defaults'):
         continue
       st.env[gname] = ops.fresh_val(parse_type(gty), gname, st)
     self.ref_fields = self.relevant_ref_fields(node)
@@ -276,6 +276,7 @@ class Exec(SpecMixin, ExprMixin, CallMixin, BuiltinMixin, StmtMixin, EventMixin)
         f = subcls(cls_const(cname), cls_const(other))
         st.assume(f if other in sups else z3.Not(f))
     st.assume(typeof(NONE) == cls_const('NoneType'))
+    st.assume(z3.Not(truthy_u(NONE)))
 
   def run(self):
     c = self.contract
